@@ -16,6 +16,8 @@ Decomposition (DESIGN §4/C09):
 """
 from __future__ import annotations
 
+import json
+
 import copy
 import itertools
 import z3
@@ -55,13 +57,17 @@ CFGS = {
     "sgd-graft": dict(graft="sgd", momentum=0.9),
     "no-factor-block": dict(ignored=[0], shapes=((3,), (2, 2))),
     "ignored-all-soap": dict(soap=True, ignored=[0, 1], shapes=((2, 2),)),
+    # low-precision parameters: every working tensor of the step must still BE the checkpointed state tensor (not a promoted copy of it)
+    "bf16-full": dict(graft="adam", beta1=0.9, momentum=0.5, dtype="bf16"),
+    # a block without Kronecker factors that still holds other per-block state (grafting, momentum, filtered gradient)
+    "no-factor-block-full": dict(ignored=[0], shapes=((3,), (2, 2)), graft="adam", beta1=0.9, momentum=0.5),
 }
 
 
 def cases(tier):
     cs = ["derived/shampoo-bc2", "derived/soap-bc2", "derived/graft-bc2"]
     cs += [f"structure/{n}" for n in CFGS]
-    cs += ["raise/unknown-param", "raise/missing-entry", "raise/missing-module-entry", "raise/group-mismatch", "keys/unique"]
+    cs += ["raise/unknown-param", "raise/missing-entry", "raise/missing-module-entry", "raise/missing-whole-block", "raise/group-mismatch", "keys/unique"]
     return cs
 
 
@@ -161,7 +167,7 @@ def make(cfgname, seed=0, dtensor=False, params=None):
     torch.manual_seed(seed)
     shapes = cfg.get("shapes", ((4, 3), (5,), (2, 2, 2)))
     if params is None:
-        params = [torch.nn.Parameter(torch.randn(s)) for s in shapes]
+        params = [torch.nn.Parameter(torch.randn(s).to(torch.bfloat16 if cfg.get("dtype") == "bf16" else torch.float32)) for s in shapes]
     g = cfg.get("graft")
     gc = dict(adam=st.AdamGraftingConfig(beta2=0.9, epsilon=1e-8), rmsprop=st.RMSpropGraftingConfig(beta2=0.9, epsilon=1e-8), sgd=st.SGDGraftingConfig()).get(g)
     ign = list(cfg.get("ignored", []))
@@ -216,7 +222,7 @@ def _structure_case(case):
     before0 = [(t, t.detach().clone()) for t in all0 if t.numel() > 0]
     for t in range(3):
         for p in params:
-            p.grad = torch.randn(p.shape)
+            p.grad = torch.randn(p.shape).to(p.dtype)
         opt.step()
     sd = opt.distributed_state_dict(key_to_param=iter(names))
     rp = dict(kind="resume", cfg=name)
@@ -246,7 +252,7 @@ def _structure_case(case):
     _walk_tensors(vars(opt), set(), allt)
     before = [(t, t.detach().clone()) for t in allt if t.numel() > 0]
     for p in params:
-        p.grad = torch.randn(p.shape)
+        p.grad = torch.randn(p.shape).to(p.dtype)
     opt.step()
     sd2 = opt.distributed_state_dict(key_to_param=iter(names))
     saved2 = {t.data_ptr() for t in _saved_tensors(sd2)}
@@ -306,10 +312,10 @@ def _raise_case(case):
     kind = case.split("/")[1]
     func = "DistributedShampoo.load_distributed_state_dict"
     out = []
-    for name in ("shampoo-full", "soap"):
+    for name in (("no-factor-block-full",) if kind == "missing-whole-block" else ("shampoo-full", "soap")):
         opt, params, names = make(name)
         for p in params:
-            p.grad = torch.randn(p.shape)
+            p.grad = torch.randn(p.shape).to(p.dtype)
         opt.step()
         sd = opt.distributed_state_dict(key_to_param=iter(names))
         opt2, params2, names2 = make(name, params=[torch.nn.Parameter(p.detach().clone()) for p in params])
@@ -326,6 +332,14 @@ def _raise_case(case):
             for k in ks:
                 del bad["state"]["p0"][k]
             what = "the saved state of p0 lacks every inverse-root / eigenbasis entry of a Kronecker-factor module"
+        elif kind == "missing-whole-block":
+            # p0 has shape (3,) with ignored_dims=[0]: its block has NO Kronecker factor (a leaf-less module, dropped on save) but holds grafting /
+            # momentum / filtered-gradient tensors; a checkpoint that lacks every entry of that block must raise, not resume with fresh zeros
+            blocks = sorted({json.loads(k)[0] for k in bad["state"]["p0"] if isinstance(json.loads(k), list) and str(json.loads(k)[0]).startswith("block_")})
+            ks = [k for k in bad["state"]["p0"] if isinstance(json.loads(k), list) and json.loads(k)[0] == blocks[0]]
+            for k in ks:
+                del bad["state"]["p0"][k]
+            what = f"the saved state of p0 lacks all {len(ks)} entries of {blocks[0]} (a block without Kronecker factors that holds other state)"
         else:
             gk = list(bad["param_groups"].keys())[0]
             bad["param_groups"]["renamed/group"] = bad["param_groups"].pop(gk)
@@ -390,7 +404,7 @@ def native_resume(cfgname, seed, T=5, dtensor=False):
     rng = random.Random(f"{cfgname}/{seed}")
     torch.manual_seed(seed)
     opt, params, names = make(cfgname, seed)
-    grads = [[(torch.randn(p.shape) if rng.random() < 0.8 else None) for p in params] for _ in range(T)]
+    grads = [[(torch.randn(p.shape).to(p.dtype) if rng.random() < 0.8 else None) for p in params] for _ in range(T)]
     snaps = []
     for k in range(T + 1):
         snaps.append(([p.detach().clone() for p in params], copy.deepcopy(opt.distributed_state_dict(key_to_param=iter(names)))))
